@@ -27,6 +27,9 @@ pub enum COp {
     Compute(u32, u32),
     Retain(u32),
     RetainForce(u32),
+    /// retain (false) / retain_force (true) whose predicate, when shown key `.0`, first replaces
+    /// that key's value by `.1` through the map itself and then rejects the entry
+    RetainTouch(u32, i64, bool),
     Iter,
     Reserve(u64),
     Clear,
@@ -95,6 +98,7 @@ pub struct RunResult {
     pub statuses: String,
     /// freeze runs: the structure the solo thread saw (taken while the writer was suspended)
     pub frozen_dump: Option<CDump>,
+    pub trace_sites: Vec<(u16, &'static str, u32, u8)>,
 }
 
 fn now(s: &Sched) -> u64 {
@@ -118,6 +122,7 @@ fn run_op<S: BuildHasher>(
     s: &Arc<Sched>,
     inst: u32,
     fails: &Mutex<Vec<String>>,
+    calls: &Mutex<Vec<Call>>,
 ) -> Res {
     let guard = map.guard();
     let mref = map.pin();
@@ -245,6 +250,35 @@ fn run_op<S: BuildHasher>(
             }
             Res::Retained(log)
         }
+        COp::RetainTouch(tk, nv, force) => {
+            let mut log = Vec::new();
+            let mut touched = false;
+            let f = |kk: &Key, v: &Val| {
+                let shown = now(s);
+                if kk.id == *tk && !touched {
+                    touched = true;
+                    // the value changes after the predicate was handed `v`: a nested, completed insert
+                    let g2 = map.guard();
+                    let inv = now(s);
+                    let old = map.insert(Key::new(*tk, inst), Val::new(*nv), &g2).map(|o| o.payload);
+                    let res = now(s);
+                    calls.lock().unwrap().push(Call {
+                        tid,
+                        op: COp::Insert(*tk, *nv),
+                        inv,
+                        res,
+                        out: match old { Some(o) => Res::Val(o), None => Res::None },
+                    });
+                    log.push((shown, kk.id, v.payload, false));
+                    false
+                } else {
+                    log.push((shown, kk.id, v.payload, true));
+                    true
+                }
+            };
+            if *force { map.retain_force(f, &guard) } else { map.retain(f, &guard) }
+            Res::Retained(log)
+        }
         COp::Iter => {
             let created = now(s);
             let mut items = Vec::new();
@@ -346,7 +380,7 @@ pub fn run_program<S: BuildHasher + Default + Send + Sync>(p: &Program, opts: Ru
                     for (i, op) in ops.iter().enumerate() {
                         let inv = now(&sched);
                         let locks_before = hooks::peek_locks();
-                        let out = run_op(map, p, tid, op, &sched, (tid as u32 + 1) * 1000 + i as u32, fails);
+                        let out = run_op(map, p, tid, op, &sched, (tid as u32 + 1) * 1000 + i as u32, fails, calls);
                         let res = now(&sched);
                         let is_read = matches!(op, COp::Get(_) | COp::GetKeyValue(_) | COp::ContainsKey(_) | COp::Iter | COp::Len);
                         if is_read {
@@ -416,6 +450,7 @@ pub fn run_program<S: BuildHasher + Default + Send + Sync>(p: &Program, opts: Ru
         }
         sched.shutdown();
     });
+    let trace_sites = sched.inner.lock().unwrap().trace_sites.clone();
     let (trace, steps, lock_waits, parks, steps_of, statuses) = {
         let g = sched.inner.lock().unwrap();
         (
@@ -491,6 +526,7 @@ pub fn run_program<S: BuildHasher + Default + Send + Sync>(p: &Program, opts: Ru
         read_locks: read_locks.into_inner().unwrap(),
         statuses,
         frozen_dump,
+        trace_sites,
     }
 }
 
@@ -681,8 +717,8 @@ fn per_key_calls(p: &Program, r: &RunResult) -> (BTreeMap<u32, Vec<KCall>>, Vec<
             (COp::Compute(k, f), Res::Computed(seen, ret)) => {
                 push(*k, KCall { inv: c.inv, res: c.res, op: KOp::Compute(*f, *k, *seen, *ret), desc: d })
             }
-            (COp::Retain(_), Res::Retained(log)) | (COp::RetainForce(_), Res::Retained(log)) => {
-                let force = matches!(c.op, COp::RetainForce(_));
+            (COp::Retain(_), Res::Retained(log)) | (COp::RetainForce(_), Res::Retained(log)) | (COp::RetainTouch(..), Res::Retained(log)) => {
+                let force = matches!(c.op, COp::RetainForce(_) | COp::RetainTouch(_, _, true));
                 let mut seen_keys = std::collections::HashSet::new();
                 for (i, (step, k, v, verdict)) in log.iter().enumerate() {
                     if !seen_keys.insert(*k) {
@@ -862,7 +898,7 @@ pub fn check_iterators(p: &Program, r: &RunResult) -> Vec<String> {
             (COp::TryInsert(k, v), Res::Inserted) => writes.entry(*k).or_default().push((c.inv, c.res, Some(*v))),
             (COp::Remove(k), Res::Val(_)) | (COp::RemoveEntry(k), Res::KV(..)) => writes.entry(*k).or_default().push((c.inv, c.res, None)),
             (COp::Compute(k, _), Res::Computed(Some(_), ret)) => writes.entry(*k).or_default().push((c.inv, c.res, *ret)),
-            (COp::Retain(_), Res::Retained(log)) | (COp::RetainForce(_), Res::Retained(log)) => {
+            (COp::Retain(_), Res::Retained(log)) | (COp::RetainForce(_), Res::Retained(log)) | (COp::RetainTouch(..), Res::Retained(log)) => {
                 for (_, k, _, verdict) in log {
                     if !*verdict {
                         writes.entry(*k).or_default().push((c.inv, c.res, None));
@@ -1055,8 +1091,19 @@ pub fn gen_program(rng: &mut SplitMix64, kind: u64) -> Program {
         // retain / retain_force against replacements
         6 => {
             p.universe = 3 + rng.below(3) as u32;
+            if rng.chance(1, 2) {
+                // the entries live in a tree bin
+                p.cap = 64;
+                p.hasher = [H_ZERO, H_ONES, H_SAMEBIN][rng.below(3) as usize];
+                p.universe = 9 + rng.below(4) as u32;
+            }
             p.prefill = (0..p.universe).collect();
-            p.threads.push(vec![if rng.chance(2, 3) { COp::Retain(rng.below(5) as u32) } else { COp::RetainForce(rng.below(5) as u32) }]);
+            p.threads.push(vec![match rng.below(6) {
+                0..=2 => COp::Retain(rng.below(5) as u32),
+                3 => COp::RetainForce(rng.below(5) as u32),
+                4 => COp::RetainTouch(rng.below(p.universe as u64) as u32, { val += 1; val }, false),
+                _ => COp::RetainTouch(rng.below(p.universe as u64) as u32, { val += 1; val }, true),
+            }]);
             for _ in 1..nthreads {
                 let n = 1 + rng.below(3);
                 p.threads.push(
